@@ -20,6 +20,20 @@ def rowJ (r : IdxRow) : Json :=
 def lensJ (l : List (Bytes × Nat)) : Json :=
   Json.arr (l.map (fun p => Json.arr #[Json.str (ofB p.1), nat p.2])).toArray
 
+/-- the index as the library sees it (written `.fai` read back); a parse failure is an error, not an empty index -/
+def indexBack (idx : List IdxRow) : Except String (List IdxRow) :=
+  match readIndex (faiText idx) with
+  | some b => pure b
+  | none => throw "model: read_index failed on the written .fai"
+
+def errIndex : Json := Json.mkObj [("err", str "other:IndexError")]
+
+/-- one checked interval read: IndexError / KeyError become an error value, never a silently wrong string -/
+def fetchJ (file : Bytes) (idx : List IdxRow) (n : Bytes) (a b : Nat) : Json :=
+  match fetchNamed file idx (n, a, b) with
+  | some x => Json.str (ofB x)
+  | none => errIndex
+
 def handle (op : String) (j : Json) : Except String Json := do
   let recs ← getRecs j
   let noNL := match j.getObjVal? "no_final_newline" with
@@ -31,7 +45,7 @@ def handle (op : String) (j : Json) : Except String Json := do
   | "index" =>
     let idx := createIndex file
     -- the written .fai, and what read_index makes of it (get_contig_lengths reads the re-read index)
-    let back := (readIndex (faiText idx)).getD []
+    let back ← indexBack idx
     let m := Json.mkObj [("rows", Json.arr (back.map rowJ).toArray), ("lengths", lensJ (contigLengths back)),
                          ("fai", Json.str (ofB (faiText idx)))]
     let s := Json.mkObj [("rows", Json.arr (spec.map rowJ).toArray),
@@ -40,7 +54,7 @@ def handle (op : String) (j : Json) : Except String Json := do
     pure (reply m (some s))
   | "session" =>
     -- several calls on one open object: the model is stateless, every step is computed from the index and the file
-    let idx := (readIndex (faiText (createIndex file))).getD []
+    let idx ← indexBack (createIndex file)
     let steps ← getArr j "steps"
     let out ← steps.mapM (fun st => do
       let k ← getStr st "k"
@@ -51,10 +65,11 @@ def handle (op : String) (j : Json) : Except String Json := do
           let n ← getStr iv "name"
           let a ← getNat iv "a"
           let b ← getNat iv "b"
-          pure (match lookup idx (toB n) with
-            | some r => Json.str (ofB (fetchInterval file r a b))
-            | none => Json.null))
-        pure (Json.arr rs.toArray)
+          pure (toB n, a, b))
+        -- the whole set goes through the flat-buffer assembly of get_interval_sequences
+        pure (match getIntervalSequences file idx rs with
+          | some l => Json.arr (l.map (fun x => Json.str (ofB x))).toArray
+          | none => errIndex)
       | "contig" =>
         let n ← getStr st "name"
         pure (match lookup idx (toB n) with
@@ -102,12 +117,14 @@ def handle (op : String) (j : Json) : Except String Json := do
   | "genome" =>
     let idx := createIndex file
     let text := faiText idx
-    let sizes := (genomeSizes text).getD []
-    let back := (readIndex text).getD []
+    let sizes ← (match genomeSizes text with
+      | some z => pure z
+      | none => throw "model: Genome.from_file failed on the written .fai")
+    let back ← indexBack idx
     let seqs := back.map (fun r => Json.arr #[Json.str (ofB r.name), Json.str (ofB (fetchContig file r))])
     let last := back.getLast?
     let sub := match last with
-      | some r => [Json.str (ofB (fetchInterval file r 0 r.rlen)), Json.str (ofB (fetchInterval file r (r.rlen / 2) r.rlen))]
+      | some r => [fetchJ file back r.name 0 r.rlen, fetchJ file back r.name (r.rlen / 2) r.rlen]
       | none => []
     let m := Json.mkObj [("sizes", lensJ sizes), ("seqs", Json.arr seqs.toArray), ("sub", Json.arr sub.toArray)]
     let sSub := match recs.getLast? with
@@ -119,23 +136,23 @@ def handle (op : String) (j : Json) : Except String Json := do
     pure (reply m (some s))
   | "fetch" =>
     let supplied ← getBool j "supplied"
-    let idx := (readIndex (faiText (if supplied then spec else createIndex file))).getD []
+    let idx ← indexBack (if supplied then spec else createIndex file)
     let ivs ← getArr j "ivs"
     let qs ← ivs.mapM (fun iv => do
       let n ← getStr iv "name"
       let a ← getNat iv "a"
       let b ← getNat iv "b"
       pure (toB n, a, b))
-    let m := qs.map (fun (n, a, b) => match lookup idx n with
-      | some r => Json.str (ofB (fetchInterval file r a b))
-      | none => Json.null)
+    let m := match getIntervalSequences file idx qs with
+      | some l => Json.arr (l.map (fun x => Json.str (ofB x))).toArray
+      | none => errIndex
     let s := qs.map (fun (n, a, b) => match recs.find? (fun r => firstWord r.header == n) with
       | some r => Json.str (ofB ((r.seq.drop a).take (b - a)))
       | none => Json.null)
-    pure (reply (Json.arr m.toArray) (some (Json.arr s.toArray)))
+    pure (reply m (some (Json.arr s.toArray)))
   | "contig" =>
     let supplied ← getBool j "supplied"
-    let idx := (readIndex (faiText (if supplied then spec else createIndex file))).getD []
+    let idx ← indexBack (if supplied then spec else createIndex file)
     let m := idx.map (fun r => Json.arr #[Json.str (ofB (firstWord r.name)), Json.str (ofB (fetchContig file r))])
     let s := recs.map (fun r => Json.arr #[Json.str (ofB (firstWord r.header)), Json.str (ofB r.seq)])
     pure (reply (Json.arr m.toArray) (some (Json.arr s.toArray)))
